@@ -391,6 +391,7 @@ func (s *bufScanner) ScanRegex() (tok Token, pos Pos, lit string) {
 
 // scanFunc uses the provided function to scan the next token.
 func (s *bufScanner) scanFunc(scan func() (Token, Pos, string)) (tok Token, pos Pos, lit string) {
+	verifNoteScan(s.n)
 	// If we have unread tokens then read them off the buffer first.
 	if s.n > 0 {
 		s.n--
@@ -448,6 +449,7 @@ func (r *reader) UnreadRune() error {
 
 // read reads the next rune from the reader.
 func (r *reader) read() (ch rune, pos Pos) {
+	verifNoteRead(r.n)
 	// If we have unread characters then read them off the buffer first.
 	if r.n > 0 {
 		r.n--
